@@ -69,7 +69,10 @@ EXTRA = {
            "number a pixel can take (R8)."
            " find_islands does not write into its arguments (R10)."
            " The seed test is aggregated over all own pixels (R2)."
-           " Forced noise / background maps are not replaced by the estimate (R11).",
+           " Forced noise / background maps are not replaced by the estimate (R11)."
+           " The own-pixel selector is true ON the island's label (R3); an "
+           "island is skipped after blanking exactly when no finite pixel "
+           "is left (R12).",
     "C03": " Also: sign of every value stored into err_* (R11), the island "
            "number stored is the island's own (R2)."
            " The sexagesimal formatters carry after the integer "
@@ -92,7 +95,12 @@ EXTRA = {
            "roles of the coordinate arrays handed to the derivative "
            "routines (R9)."
            " Fit, covariance and Fisher matrix select the same (finite) pixels (R12)."
-           " The whitening floor is relative to the largest eigenvalue (R13); guarded (piecewise) derivative rows must be right on both branches (R1).",
+           " The whitening floor is relative to the largest eigenvalue (R13); guarded (piecewise) derivative rows must be right on both branches (R1)."
+           " The whitening factor evaluates to 1/sqrt(L), the floor is a "
+           "fixed small fraction of the largest eigenvalue, the correlation "
+           "matrix has unit amplitude (R13); the model function is the sum "
+           "of its components with name-aligned parameters (R14); the "
+           "1-sigma index starts at 0 (R4).",
     "C05": " Also: refit lower shape bound <= blind-fit lower bound (R7, "
            "symbolic with counter-example), default regrouping length in "
            "arcmin (R8)."
@@ -111,7 +119,11 @@ EXTRA = {
            "4-d inputs (R8)."
            " No NaN is replaced by a number inside the estimator (R9)."
            " Argument binding in BANE (R10), nothing memoised (R11)."
-           " Every comparison in sigmaclip / sigma_filter is homogeneous in the pixel values, no absolute tolerance (R12).",
+           " Every comparison in sigmaclip / sigma_filter is homogeneous in the pixel values, no absolute tolerance (R12)."
+           " The background is combined by subtraction, the block holds every "
+           "column (R1); a manually scaled block is read raw (R3); the box "
+           "of every grid node, interpreted on sample nodes, is non-empty, "
+           "starts at >= 0 and lies within half a box of the node (R13).",
     "C07": " Also: row / column axis discipline of the stripe halo and box "
            "(R7)."
            " The pool / barrier rule is decided when only one side is "
@@ -122,7 +134,10 @@ EXTRA = {
            "released before close() (R4)."
            " The closing node of each interpolation axis is >= the range stop for every stripe height (R8)."
            " The stripe count does not depend on the worker count when a request is given (R9)."
-           " The background is removed from the whole loaded block, halo rows included (R10).",
+           " The background is removed from the whole loaded block, halo rows included (R10)."
+           " The loaded block reaches half a box beyond the stripe on either "
+           "side and stays inside the image (bounds interpreted for sample "
+           "stripes, R11).",
     "C08": " Also: bypass paths of the set operations only where the "
            "operation is the identity (R3), the cache is never mutated in "
            "place (R9), no narrow integer / float dtype (R10), add_pixels "
